@@ -384,12 +384,15 @@ def ens_add_used_bookkeeping(I, env, res):
     consumes = z3.And(z3.Not(filtered), z3.Not(blocker), file_has_ignores(I, file_t), enabled)
     none_match = z3.ForAll([j], z3.Implies(z3.And(0 <= j, j < z3.Length(lines)), z3.Not(spec_match_at(I, self, info, file_t, lines[j]))))
     i = g.get("loop_i")
+    written = not used1.eq(used0)  # the path stored into used_ignored_lines (syntactic: same term otherwise)
+    if not written:
+        # nothing recorded: then nothing was consumed
+        return z3.Or(z3.Not(consumes), none_match)
     if i is None:
-        return z3.And(used1 == used0, z3.Or(z3.Not(consumes), none_match))
+        return z3.BoolVal(False)  # a write outside the span loop is never legitimate
     none_before = z3.ForAll([j], z3.Implies(z3.And(0 <= j, j < i), z3.Not(spec_match_at(I, self, info, file_t, lines[j]))))
     first_i = z3.And(0 <= i, i < z3.Length(lines), spec_match_at(I, self, info, file_t, lines[i]), none_before)
-    return z3.Or(z3.And(used1 == used0, z3.Or(z3.Not(consumes), none_match)),
-                 z3.And(consumes, first_i, used1 == appended(lines[i])))
+    return z3.And(consumes, first_i, used1 == appended(lines[i]))
 
 
 def ens_add_frame(I, env, res):
